@@ -311,8 +311,12 @@ def isOutside (e : Gen.ApiEntry) : Bool := declaredOutsideCodes.contains e.code
 /-- the code-point lists used below are the explicit name lists of Model/EffectsApi.lean -/
 theorem declared_lists_spelled :
     declaredOutsideCodes = declaredOutside.map (fun s => s.toList.map Char.toNat) ∧
-    declaredSharingCodes = declaredSharing.map (fun s => s.toList.map Char.toNat) :=
-  ⟨declaredOutsideCodes_spelled, declaredSharingCodes_spelled⟩
+    declaredSharingCodes = declaredSharing.map (fun s => s.toList.map Char.toNat) ∧
+    declaredDbEditorCodes = declaredDbEditors.map (fun s => s.toList.map Char.toNat) :=
+  ⟨declaredOutsideCodes_spelled, declaredSharingCodes_spelled, declaredDbEditorCodes_spelled⟩
+
+/-- member of the explicit list `Effects.declaredDbEditors` -/
+def isDbEditor (e : Gen.ApiEntry) : Bool := declaredDbEditorCodes.contains e.code
 
 /-- the entry refers to a translated function -/
 def fidOK (e : Gen.ApiEntry) : Bool := e.fid < Gen.fnsIdx.length
@@ -398,13 +402,14 @@ theorem declared_sharing_is_flagged :
     Gen.api.all (fun e => !isDeclaredSharing e || (fidOK e && !((V e.fid).share == []))) = true := by
   decide +kernel
 
-/-- **The modification databases are untouched.** No member of the API surface - editors, members declared outside and
-random ones included - may write one of the module-level EntryDb objects or hand one back; and the only process-wide
-object any of them may write at all is the module random generator (object 0: `shuffle` and the randomizers). -/
+/-- **The modification databases are untouched.** No public function or annotation method - editors, members declared
+outside and random ones included, only the three explicit database editors (`declaredDbEditors`) excepted - may write one of
+the module-level EntryDb objects or hand one back; and the only process-wide object any of them may write at all is the
+module random generator (object 0: `shuffle` and the randomizers). -/
 theorem generated_db_untouched :
-    Gen.api.all (fun e => fidOK e &&
+    Gen.api.all (fun e => isDbEditor e || (fidOK e &&
       (V e.fid).globals.all (fun g => !Gen.dbGlobals.contains g && g == 0) &&
-      (V e.fid).shareGlobals.all (fun g => !Gen.dbGlobals.contains g)) = true := by
+      (V e.fid).shareGlobals.all (fun g => !Gen.dbGlobals.contains g))) = true := by
   decide +kernel
 
 /-- non-vacuity of `generated_db_untouched`: the analysis does see database writes - the explicit database editors
